@@ -480,6 +480,15 @@ func (in *Interp) nondetNames() []string {
 // modelValues fetches the values of all nondets under the current path plus extra.
 func (in *Interp) modelValues(extra string) (string, map[string]any) {
 	names := in.nondetNames()
+	if len(names) == 0 && extra == "" {
+		// every nondet on this path is concrete (verifChoice only): the path is feasible by
+		// construction and there is nothing to ask the solver
+		out := map[string]any{}
+		for _, n := range in.nondets {
+			out[n.Name] = jsonable(n.Conc)
+		}
+		return "sat", out
+	}
 	res, vals := in.solver.CheckModel(extra, names)
 	if res == "unknown" {
 		res, vals = in.solver.FallbackModel(extra, names)
